@@ -34,3 +34,23 @@ Definition env_diff (gen spec : env) : list string :=
                                | DOpaque => false
                                | _ => match lookup spec (fst p) with Some _ => false | None => true end
                                end) gen))%list.
+
+(* role-restricted conformance: the declarations that can be serialised / deserialised *)
+Definition decl_ser (d : decl) : bool :=
+  match d with
+  | DStruct _ s _ _ => s | DStrEnum s _ _ _ => s | DRepr _ s _ _ => s | DUntagged s _ => s
+  | DCustom _ s _ _ => s | DOpaque => false
+  end.
+Definition decl_de (d : decl) : bool :=
+  match d with
+  | DStruct _ _ d' _ => d' | DStrEnum _ d' _ _ => d' | DRepr _ _ d' _ => d' | DUntagged _ _ => false
+  | DCustom _ _ d' _ => d' | DOpaque => false
+  end.
+
+Definition env_conforms_role (role : decl -> bool) (gen spec : env) : bool :=
+  forallb (fun p => if role (snd p)
+                    then match lookup gen (fst p) with Some d => decl_eqb d (snd p) | None => false end
+                    else true) spec
+  && forallb (fun p => if role (snd p)
+                       then match lookup spec (fst p) with Some _ => true | None => false end
+                       else true) gen.
